@@ -352,6 +352,29 @@ def compare(fi, tmpl, keep=()):
             rest2.remove(e.key)
         else:
             missing.append(e)
+    if not extra and not missing:
+        # order: for every surviving local, the effects that mention it come in the same order
+        def syms(k, out):
+            if isinstance(k, tuple):
+                if len(k) == 2 and k[0] == 'sym':
+                    out.add(k[1])
+                for x in k:
+                    syms(x, out)
+            elif isinstance(k, str) and k.startswith('bind:'):
+                out.add(k[5:])
+            return out
+        sa = [(e, syms(e.key, set())) for e in a]
+        sb = [(e, syms(e.key, set())) for e in b]
+        for sym in sorted(set().union(*[s for _, s in sb]) if sb else ()):
+            la = [e for e, s in sa if sym in s]
+            lb = [e for e, s in sb if sym in s]
+            for ea, eb in zip(la, lb):
+                if ea.key != eb.key:
+                    ea_copy = Effect('order:' + ea.kind, ea.ctx, ea.target, ea.value, ea.node)
+                    ea_copy.key = ea.key
+                    eb_copy = Effect('order:' + eb.kind, eb.ctx, eb.target, eb.value, eb.node)
+                    eb_copy.key = eb.key
+                    return False, [eb_copy], [ea_copy]
     return (not extra and not missing), missing, extra
 
 
